@@ -216,7 +216,7 @@ TRUSTED = [
     "Stream.next / Stream.peek are inlined (their real bodies are executed in place)",
 ]
 ASSUMPTIONS = ["partial correctness (termination not decided)", "user callbacks are pure constructors"]
-BOUNDED = ["declarative cross-check: all operator tables over 3 precedence levels x all well-formed streams up to 7 tokens (stand-in)"]
+BOUNDED = ["declarative cross-check: all operator tables over 3 precedence levels (two prefix, one postfix, two infix operators) x all well-formed streams up to 6 (quick) / 8 (thorough) tokens (stand-in)"]
 
 
 def specs(tier):
